@@ -346,4 +346,19 @@ def bool_forms(form, vars_):
                 r[-1] = False
             return r
         return x, val
+    if form == "cmp":
+        # every operand is a COMPARISON node equivalent to the variable (>, >=, <, <=, ==, != in turn): an encoder that looks
+        # inside its operands (pushing a negation into them, say) must keep their meaning
+        def mk(i, v):
+            k = i % 6
+            one = v.cond(1, 0)
+            return [one > 0, one >= 1, (0 < one), (1 <= one), one == 1, one != 0][k]
+        return [mk(i, v) for i, v in enumerate(vars_)], lambda a: list(a)
+    if form == "ncmp":
+        # comparison nodes equivalent to the NEGATION of the variable
+        def mk(i, v):
+            k = i % 6
+            one = v.cond(1, 0)
+            return [one < 1, one <= 0, (1 > one), (0 >= one), one == 0, one != 1][k]
+        return [mk(i, v) for i, v in enumerate(vars_)], lambda a: [not b for b in a]
     raise ValueError(form)
